@@ -1566,9 +1566,9 @@ func TestVerif_C28(t *testing.T) {
 	}
 	only := os.Getenv("VERIF_C28_ONLY") // diagnosis only: "flush" | "stress"
 	if only == "" || only == "flush" || s.Replaying() {
-		kit.Run(s, "flush_vs_concurrent_record", kit.N{Quick: 20000, Thorough: 400000}, c28FlushGen, c28FlushCheck)
+		kit.Run(s, "flush_vs_concurrent_record", kit.N{Quick: 20000, Thorough: 2000000}, c28FlushGen, c28FlushCheck)
 	}
 	if only == "" || only == "stress" || s.Replaying() {
-		kit.Run(s, "receiver_oracle_under_stress", kit.N{Quick: 1000, Thorough: 6000}, c28Gen, c28Check)
+		kit.Run(s, "receiver_oracle_under_stress", kit.N{Quick: 1000, Thorough: 40000}, c28Gen, c28Check)
 	}
 }
